@@ -1149,58 +1149,124 @@ def check_mailbox(ctx, R, classes):
 
 # ----------------------------------------------------------------------------- C08 partition timer
 def check_partition_timer(ctx, R):
+    """partition.update on the let-normal form of every normal path (helpers such as _enqueue / _flush_full / _arm_timer,
+    named booleans, renamed fields and if/elif restructurings are transparent):
+      APPEND-THEN-TEST  the size that decides a flush is a len() of the key's buffer taken after the append, compared with n
+      ARM-CANCEL        a size-triggered flush cancels the key's pending timer first, unless a configuration-only test
+                        (timeout is None / n == 1) says none can be pending
+      ARM-ON-FIRST      the timer is armed exactly when that len() is 1 and a timeout is configured, with
+                        call_later(self._timeout, self._flush, key), stored under the key; never on a flushing path"""
+    import re
+    from ..symexpr import SymEval, nf, norm_cond
     M = ctx.model
     cls = M.cls('streamz.core', 'partition')
-    up = cls.methods.get('update')
+    up = cls.find('update')
     if up is None:
         raise AnalysisError('anchor vanished: partition.update')
     con = ctx.construct(up)
-    CONFIG = {'_timeout', 'n', '_key'}
-    bad_cancel, bad_order, bad_arm = None, None, None
-    n_flush, n_arm = 0, 0
-    for st, status in ctx.paths(up, cls):
-        evs = st.events
-        if is_failure(evs, status):
-            continue
-        app = next((i for i, e in enumerate(evs) if e.kind == 'ST' and e.a == '_buffer' and e.c in ('append',)), None)
-        flush = next((i for i, e in enumerate(evs) if (e.kind == 'ENTER' and e.a == '_flush') or
-                      (e.kind == 'SELFCALL' and e.a == '_flush')), None)
-        if flush is not None:
-            # the size that decides the flush is measured by the last len() before the flush decision
-            measures = [i for i, e in enumerate(evs[:flush]) if e.kind == 'CALL' and e.a == 'len']
-            if app is None or not measures or measures[-1] < app:
-                bad_order = evs
-        if flush is not None:
+    paths = [r for r in SymEval(M, cls, name_calls=True, no_splice=('_flush',)).run(up) if not r.raised]
+    if not paths:
+        raise AnalysisError('partition.update: no normal path (unrecognised spelling)')
+    bad_order = bad_cancel = bad_arm = None
+    n_flush = n_arm = 0
+    for r in paths:
+        calls = [(k, c) for k, (c, s_, l) in enumerate(r.calls)]
+        appends = [k for k, c in calls if isinstance(c, ast.Call) and isinstance(c.func, ast.Attribute) and c.func.attr == 'append'
+                   and nf(c.func.value).startswith('self._buffer[') and c.args and nf(c.args[0]) == 'x']
+        if len(appends) != 1:
+            continue            # PASS-VALUE / FLUSH-RESETS own "the element is buffered once"
+        a = appends[0]
+        BUF = nf(r.calls[a][0].func.value)
+        KEY = BUF[len('self._buffer['):-1]
+        lens = {k for k, c in calls if isinstance(c, ast.Call) and nf(c.func) == 'len' and c.args and nf(c.args[0]) == BUF}
+        flushes = [k for k, c in calls if isinstance(c, ast.Call) and nf(c.func) == 'self._flush' and c.args and nf(c.args[0]) == KEY]
+        arms = [k for k, c in calls if isinstance(c, ast.Call) and isinstance(c.func, ast.Attribute) and c.func.attr == 'call_later']
+        cancels = [k for k, c in calls if isinstance(c, ast.Call) and isinstance(c.func, ast.Attribute) and c.func.attr == 'cancel'
+                   and nf(c.func.value).endswith('[%s]' % KEY) and nf(c.func.value).startswith('self.')]
+
+        def size_test(value):
+            """outcome of a test `len(BUF) == value` (len taken after the append) on this path, or None"""
+            for c_, o in r.conds:
+                t, o2 = norm_cond(c_, o)
+                for piece, po in _conjuncts(t, o2):
+                    m_ = re.fullmatch(r'C(\d+)==(.+)', piece.replace(' ', ''))
+                    m2 = re.fullmatch(r'(.+)==C(\d+)', piece.replace(' ', ''))
+                    sym, other = (int(m_.group(1)), m_.group(2)) if m_ else ((int(m2.group(2)), m2.group(1)) if m2 else (None, None))
+                    if sym is not None and other == value and sym in lens:
+                        return po, sym
+            return None, None
+
+        def cfg(text):
+            for c_, o in r.conds:
+                t, o2 = norm_cond(c_, o)
+                for piece, po in _conjuncts(t, o2):
+                    if piece.replace(' ', '') == text:
+                        return po
+            return None
+        if flushes:
             n_flush += 1
-            cancel = [i for i, e in enumerate(evs[:flush]) if e.kind == 'CALL' and e.c == 'cancel' and '_callbacks' in e.a]
-            if not cancel:
-                # acceptable only if a configuration-only guard said no timer can be pending
-                guards = [e for e in evs[:flush] if e.kind == 'COND' and e.c is None and e.b is False and '_timeout' in e.a]
-                conf_only = all({self_field(x) for x in ast.walk(g.x['node']) if self_field(x)} <= CONFIG and
-                                not any(isinstance(x, ast.Name) and x.id not in ('self',) for x in ast.walk(g.x['node']))
-                                for g in guards)
-                if not guards or not conf_only:
-                    bad_cancel = evs
-        arms = [i for i, e in enumerate(evs) if e.kind == 'DEFER' and e.a == 'call_later']
+            full, sym = size_test('self.n')
+            if full is not True or sym < a:
+                bad_order = bad_order or 'a path flushes without having found len(buffer) == self.n after the append'
+            if not any(k < flushes[0] for k in cancels):
+                # acceptable only if a configuration-only test said no timer can be pending
+                no_timer = cfg('self._timeoutisNone') is True or cfg('self.n>1') is False
+                for c_, o in r.conds:
+                    t, o2 = norm_cond(c_, o)
+                    try:
+                        e = ast.parse(t, mode='eval').body
+                    except SyntaxError:
+                        continue
+                    flds = {self_field(x) for x in ast.walk(e) if self_field(x)}
+                    others = {x.id for x in ast.walk(e) if isinstance(x, ast.Name) and x.id != 'self'}
+                    if o2 is False and '_timeout' in flds and flds <= {'_timeout', 'n', '_key'} and not others:
+                        no_timer = True     # "a timer can be pending" was tested on the configuration only, and is false
+                if not no_timer:
+                    bad_cancel = bad_cancel or 'a size-triggered flush does not cancel the pending timeout of its key first'
+            if arms:
+                bad_arm = bad_arm or 'a flushing path also arms a timer'
+        else:
+            full, sym = size_test('self.n')
+            if full is True:
+                bad_order = bad_order or 'a full partition is not flushed'
         if arms:
             n_arm += 1
-            e = evs[arms[0]]
-            first = cond_true(evs, arms[0], lambda a: a.replace(' ', '') in ('len(buffer)==1',) or ('== 1' in a and 'len(' in a))
-            tgt = e.c or ''
-            stored = any(x.kind == 'ST' and x.a == '_callbacks' and x.c == 'setitem' and (
-                x.line == e.line or ('defer@%d' % e.line) in (x.b or ())) for x in evs)
-            args = [src(a) for a in e.x['node'].args]
-            if not first or '_flush' not in tgt or not stored or len(args) < 3 or args[0] != 'self._timeout':
-                bad_arm = evs
-            if flush is not None:
-                bad_arm = evs
+            k = arms[0]
+            c = r.calls[k][0]
+            first, sym = size_test('1')
+            args = [nf(x) for x in c.args]
+            stored = [nf(cc.targets[0]) for kk, cc in calls if isinstance(cc, ast.Assign) and nf(cc.value) == 'C%d' % k]
+            if first is not True or (sym is not None and sym < a):
+                bad_arm = bad_arm or 'the timer is armed on a path that has not found len(buffer) == 1 after the append'
+            elif cfg('self._timeoutisNone') is not False:
+                bad_arm = bad_arm or 'the timer is armed although no timeout may be configured'
+            elif args != ['self._timeout', 'self._flush', KEY] or nf(c.func) != 'self.loop.call_later':
+                bad_arm = bad_arm or 'the timer is not self.loop.call_later(self._timeout, self._flush, key) (found %s)' % src(c)[:80]
+            elif not (len(stored) == 1 and re.fullmatch(r'self\.\w+\[%s\]' % re.escape(KEY), stored[0])):
+                bad_arm = bad_arm or 'the timer handle is not stored under the key (found %s)' % stored
+        else:
+            first, sym = size_test('1')
+            if first is True and cfg('self._timeoutisNone') is False and not flushes:
+                bad_arm = bad_arm or 'the first element of a partition does not arm the timeout'
     R.ob('APPEND-THEN-TEST', con, '_buffer', bad_order is None and n_flush > 0,
-         'the size test precedes the append on some path: a partition can grow past n', ctx.where(up, up.node.lineno),
-         fmt_path(bad_order) if bad_order else None, n_flush)
+         bad_order or 'no flushing path found', ctx.where(up, up.node.lineno), None, n_flush)
     R.ob('ARM-CANCEL', con, '_callbacks', bad_cancel is None and n_flush > 0,
-         'a size-triggered flush does not cancel the pending timeout of its key (a spurious partial/empty partition is '
-         'emitted later), or the cancel depends on data', ctx.where(up, up.node.lineno),
-         fmt_path(bad_cancel) if bad_cancel else None, n_flush)
+         (bad_cancel or '') + ' (a spurious partial/empty partition is emitted later)', ctx.where(up, up.node.lineno), None, n_flush)
     R.ob('ARM-ON-FIRST', con, '_callbacks', bad_arm is None and n_arm > 0,
-         'the timeout is not armed on the first element of a batch with self._flush(key) after self._timeout as target',
-         ctx.where(up, up.node.lineno), fmt_path(bad_arm) if bad_arm else None, n_arm)
+         bad_arm or 'no path arms the timeout', ctx.where(up, up.node.lineno), None, n_arm)
+
+
+def _conjuncts(text, outcome):
+    """a test known true: each conjunct of an `and` is true; a test known false: each disjunct of an `or` is false"""
+    try:
+        t = ast.parse(text, mode='eval').body
+    except SyntaxError:
+        return [(text, outcome)]
+    from ..symexpr import norm_cond
+    if isinstance(t, ast.BoolOp) and ((isinstance(t.op, ast.And) and outcome) or (isinstance(t.op, ast.Or) and not outcome)):
+        out = []
+        for v in t.values:
+            c2, o2 = norm_cond(src(v), outcome)
+            out.extend(_conjuncts(c2, o2))
+        return out
+    return [(text, outcome)]
